@@ -1,6 +1,6 @@
 import MgProof.C01.ABQInv
 /-!
-# C03 — array blocking queue: the wait protocol (partial)
+# C03 — array blocking queue: the wait protocol (local half; the global half is `ABQGlobal.lean`)
 
 Proved here, for every capacity ≥ 1, any number of producers and consumers and every schedule
 (incl. spurious wake-ups): a thread is inside `cond_wait` **only with its predicate false at the
@@ -9,12 +9,10 @@ the predicate is (re-)checked in a loop under the mutex, and nobody else can cha
 between the check and the wait because the waiter still owns the mutex; together with
 `MgProof.C01.ABQ.mutex_owner` this is the "no check-then-sleep window" half of the property.
 
-**Not proved** (hence `_partial`): the global statement "no reachable state has every thread
-disabled while a put or take is still possible". With several consumers *and* `notify_one` it
-needs a counting invariant (`cnt ≤ #notified-but-not-yet-resumed consumers + #producers
-between enqueue and notify` whenever a consumer is blocked, and symmetrically for producers).
-That part is covered by the dynamic side of the check only: deadlock is *observed* by the
-deterministic scheduler on seeded + preemption-bounded systematic schedules of the real code.
+The global statement ("no reachable state has every thread disabled while a put or take is still
+possible", several consumers + `notify_one`) is proved in `MgProof/C03/ABQGlobal.lean` by the
+counting invariant `cnt ≤ #notified-but-not-yet-resumed consumers + #producers between enqueue and
+notify` (and symmetrically for producers); the theorem below keeps its historical name.
 -/
 namespace MgProof.C03.ABQ
 open MgModel.Conc MgModel.C01.ABQ MgProof.C01.ABQ
